@@ -8,10 +8,14 @@
 (* what they showed; automatically named styles are fresh; reading styles  *)
 (* changes nothing that is saved.  Level B: a read style carries dirty     *)
 (* flags; Bug "ReadMarksDirty" lets a later save rewrite the cell's style   *)
-(* (to a lossy copy) after a mere read.                                    *)
+(* (to a lossy copy) after a mere read.  The document comes with PRESET    *)
+(* styles (PresetNames: "Body", "Title" ...; their attribute-set token is  *)
+(* their name); applying one is an Apply like any other.  Bug              *)
+(* "PresetKeepsCellStyle": a preset has no cell-level record, so a cell    *)
+(* that had one before keeps it in the file (pinned tree).                 *)
 (***************************************************************************)
 EXTENDS Integers, Sequences, FiniteSets, TLC
-CONSTANTS Cells, Attrs, MaxOps, Bug
+CONSTANTS Cells, Attrs, PresetNames, MaxOps, Bug
 VARIABLES named, shown, readflag, disk, diskNamed, hist
 vars == <<named, shown, readflag, disk, diskNamed, hist>>
 Default == "default"
@@ -28,11 +32,14 @@ Apply(c, name) == /\ Len(hist) < MaxOps /\ name \in DOMAIN named /\ shown' = [sh
 ReadStyle(c) == /\ Len(hist) < MaxOps /\ readflag' = [readflag EXCEPT ![c] = TRUE] /\ UNCHANGED <<named, shown, disk, diskNamed>> /\ Ev([op |-> "read", c |-> c])
 Save == /\ Len(hist) < MaxOps
         /\ diskNamed' = named
-        /\ disk' = [c \in Cells |-> IF Bug = "ReadMarksDirty" /\ readflag[c] /\ shown[c] # Default THEN Lossy(shown[c]) ELSE shown[c]]
+        /\ disk' = [c \in Cells |-> IF Bug = "ReadMarksDirty" /\ readflag[c] /\ shown[c] # Default THEN Lossy(shown[c])
+                                    ELSE IF Bug = "PresetKeepsCellStyle" /\ shown[c] \in PresetNames /\ disk # <<>> /\ disk[c] \notin PresetNames \cup {Default}
+                                           THEN Lossy(shown[c])
+                                    ELSE shown[c]]
         /\ UNCHANGED <<named, shown, readflag>> /\ Ev([op |-> "save"])
 Reopen == /\ Len(hist) < MaxOps /\ disk # <<>> /\ shown' = disk /\ named' = diskNamed /\ readflag' = [c \in Cells |-> FALSE]
           /\ UNCHANGED <<disk, diskNamed>> /\ Ev([op |-> "reopen"])      \* the reopened document has the styles that were saved
-Init == named = <<>> /\ shown = [c \in Cells |-> Default] /\ readflag = [c \in Cells |-> FALSE] /\ disk = <<>> /\ diskNamed = <<>> /\ hist = <<>>
+Init == named = [x \in PresetNames |-> x] /\ shown = [c \in Cells |-> Default] /\ readflag = [c \in Cells |-> FALSE] /\ disk = <<>> /\ diskNamed = <<>> /\ hist = <<>>
 Next == \/ \E nm \in {"AUTO", "Named"}, a \in Attrs : AddStyle(nm, a)
         \/ \E c \in Cells : \E name \in DOMAIN named : Apply(c, name)
         \/ \E c \in Cells : ReadStyle(c)
